@@ -501,6 +501,26 @@ Proof.
   destruct (Hf w) as [_ [_ [E|E]]]; rewrite E; try lia. apply H1. apply in_map. auto.
 Qed.
 
+Lemma invat_set_hb_at : forall p s q t, InvAt p s -> t <= mono s -> InvAt p (set_workers s (set_hb q t (workers s))).
+Proof.
+  intros p s q t H Ht. destruct H. constructor; simpl; auto; try rewrite ages_set_hb; try rewrite pids_set_hb; auto.
+  apply Forall_app in i_hb0. apply Forall_app. destruct i_hb0 as [H1 H2]. split; auto.
+  clear - H1 Ht. induction (workers s); simpl; auto. inversion H1; subst.
+  destruct (w_pid a =? q); simpl; constructor; auto.
+Qed.
+
+Lemma inv_notify_at : forall s q t, Inv s -> Inv (notify_at s q t).
+Proof.
+  intros s q t H. unfold notify_at. destruct (find_kid q (kids s)); auto.
+  destruct (is_running c && negb (c_master c) && (t <=? mono s)) eqn:E; auto.
+  apply andb_true_iff in E. destruct E as [_ E]. apply Z.leb_le in E.
+  assert (H1 : InvAt (cur s) (set_workers s (set_hb q t (workers s)))) by (apply invat_set_hb_at; auto).
+  simpl. destruct (cur s) eqn:PC; try (unfold Inv; simpl; rewrite PC; exact H1).
+  destruct (p =? q); try (unfold Inv; simpl; rewrite PC; exact H1).
+  unfold Inv. simpl. apply invat_set_pc. destruct H1. constructor; simpl in *; auto.
+  apply Forall_app in i_hb0. apply Forall_app. split; try tauto. constructor; auto.
+Qed.
+
 Lemma inv_notify_all : forall s, Inv s -> Inv (notify_all s).
 Proof.
   intros s H.
@@ -536,6 +556,7 @@ Proof.
   - unfold Inv. simpl. apply invat_set_orphan; auto.
   - apply inv_exit_told; auto.
   - apply inv_notify_all; auto.
+  - apply inv_notify_at; auto.
 Qed.
 
 Theorem inv_run : forall ls s, Inv s -> Inv (run s ls).
